@@ -17,6 +17,13 @@ func (t *Dense) Transpose() error {
 		return nil // cannot transpose scalars - no data movement
 	}
 
+	if t.IsView() && !t.o.IsContiguous() {
+		// the elements of a non-contiguous view do not fill its window of the parent's
+		// backing array: moving them into transposed order would overwrite the parent's
+		// other elements
+		return errors.Errorf("Cannot Transpose() a non-contiguous view in place. Materialize() it first")
+	}
+
 	defer func() {
 		t.old.zero()
 		t.transposeWith = nil
